@@ -261,6 +261,56 @@ func runC07(c *Ctx, w *World, r *Report) {
 		if nfail == 0 {
 			r.Bad("R-GATE", fname+"|mismatch-return", w.Pos(fn.Pos()), "no return on the header-size mismatch edge: a corrupt header size is not rejected")
 		}
+		// the header-size test is the first decision taken on a header that was read: no return lies between the
+		// successful header read and the gate (a header corrupt in several fields still yields ErrInvalidHeaderSize)
+		if hdrCall != nil {
+			var gateBlocks []*ssa.BasicBlock
+			for _, b := range fn.Blocks {
+				if ifi, ok := b.Instrs[len(b.Instrs)-1].(*ssa.If); ok {
+					if g, _ := isGate(Cond{V: stripNot(ifi.Cond), Pol: true, If: ifi}); g {
+						gateBlocks = append(gateBlocks, b)
+					}
+				}
+			}
+			hdrErr := map[ssa.Value]bool{}
+			if hdrCall.Call.Referrers() != nil {
+				for _, ref := range *hdrCall.Call.Referrers() {
+					if ex, ok := ref.(*ssa.Extract); ok && isErrorType(ex.Type()) {
+						hdrErr[ex] = true
+					}
+				}
+			}
+			badFirst := ""
+			nbefore := 0
+			for _, ret := range returnsOf(fn) {
+				if !instrDominates(hdrCall.Call, ret) {
+					continue
+				}
+				afterGate := false
+				for _, gb := range gateBlocks {
+					if gb.Dominates(ret.Block()) {
+						afterGate = true
+					}
+				}
+				if afterGate {
+					continue
+				}
+				failed := false
+				for _, cd := range fa.Conds(ret.Block()) {
+					if bo, ok := cd.V.(*ssa.BinOp); ok && (bo.Op == token.NEQ && cd.Pol || bo.Op == token.EQL && !cd.Pol) {
+						if hdrErr[bo.X] && isNilConst(bo.Y) || hdrErr[bo.Y] && isNilConst(bo.X) {
+							failed = true
+						}
+					}
+				}
+				if failed {
+					nbefore++
+					continue
+				}
+				badFirst = "Unmarshal can return at " + w.InstrPos(ret) + " after the header was read but before its header-size field was tested: a header whose size field is not " + "fixedSize must yield ErrInvalidHeaderSize whatever else is wrong with it"
+			}
+			r.Check(badFirst == "", "R-GATE", fname+"|first-decision", w.Pos(fn.Pos()), badFirst, fmt.Sprintf("%d return(s) before the gate, all on the failed-header-read edge", nbefore))
+		}
 		// decode call
 		var decode *ssa.Call
 		eachInstr(fn, func(ins ssa.Instruction) {
@@ -417,6 +467,21 @@ func runC07(c *Ctx, w *World, r *Report) {
 	ReportCount(w, r, "pbcmpl.Unmarshal", 0, isParamStream(fns["pbcmpl.Unmarshal"], 0))
 	reportWriteOrder(w, r, fns["pbcmpl.Marshal"])
 	_ = types.Typ
+}
+
+func stripNot(v ssa.Value) ssa.Value {
+	for {
+		u, ok := v.(*ssa.UnOp)
+		if !ok || u.Op != token.NOT {
+			return v
+		}
+		v = u.X
+	}
+}
+
+func isNilConst(v ssa.Value) bool {
+	c, ok := v.(*ssa.Const)
+	return ok && c.Value == nil
 }
 
 func init() {
